@@ -389,6 +389,7 @@ impl<const N: usize> Rig<N> {
     fn pop_impl(&mut self, ctx: &mut Ctx, k: usize, token: u16, lenient: bool) -> bool {
         let (ui, uid, ulen) = self.used_view();
         let mark = hal::log_len();
+        let snap_before = if N <= 64 { Some(self.q.verif_snapshot()) } else { None };
         let before: Vec<Vec<u8>> = self.subs[k].outs.iter().map(|b| b.to_vec()).collect();
         let r = {
             let sub = &mut self.subs[k];
@@ -406,6 +407,11 @@ impl<const N: usize> Rig<N> {
         o.extend(enc_qevents(&evs, token as u128));
         ctx.tr.line(120, &i, &o);
         let ok = matches!(r, Ok(Ok(_)));
+        if let (false, Some(sb), Ok(Err(_))) = (ok, &snap_before, &r) {
+            // C03: a poll that finds nothing ready or a non-matching token changes nothing
+            let same = *sb == self.q.verif_snapshot();
+            ctx.tr.line(159, &[same as u128, evs.len() as u128], &[1]);
+        }
         ctx.tr.note(match &r { Ok(Ok(_)) => "pop_ok", Ok(Err(virtio_drivers::Error::NotReady)) => "pop_notready",
             Ok(Err(virtio_drivers::Error::WrongToken)) => "pop_wrongtoken", Ok(Err(_)) => "pop_err", Err(_) => "pop_panic" });
         // C04 data monitor (kind 152): writable buffers hold the device's bytes exactly after a successful pop,
